@@ -33,7 +33,12 @@ func concWorkload(seed int64) string {
 	b := newSimBMC([]byte(fixedPass), nil)
 	busy := 0
 	// what this BMC advertises through Get Channel Cipher Suites (standard records: C0 id, auth, 40|integ, 80|conf)
-	advertised := [][]byte{{3}, {17, 3}, {3, 8}, {17}, {8, 3, 17}, {3, 17}, {8}}[rng.Intn(7)]
+	advertised := [][]byte{{3}, {17, 3}, {3, 8}, {17}, {8, 3, 17}, {3, 17}, {8}, {1, 2, 8, 3}, {2, 1, 17, 8, 3}, {1, 2, 3}}[rng.Intn(10)]
+	// some BMCs fail one request for a later page of the list (the whole discovery then fails, once)
+	suiteFaults := 0
+	if rng.Intn(3) == 0 {
+		suiteFaults = 1
+	}
 	var suiteData []byte
 	for _, id := range advertised {
 		a := concSuiteAlgs[id]
@@ -51,6 +56,10 @@ func concWorkload(seed int64) string {
 		case netfn == 0x06 && cmd == 0x54:
 			if len(data) != 3 {
 				return ipmiRsp(netfn, cmd, 0xC7, nil)
+			}
+			if data[2]&0x3f >= 1 && suiteFaults > 0 {
+				suiteFaults--
+				return ipmiRsp(netfn, cmd, 0xC9, nil)
 			}
 			lo := int(data[2]&0x3f) * 16
 			if lo > len(suiteData) {
@@ -178,7 +187,7 @@ func concWorkload(seed int64) string {
 	return strings.Join(out, ",") + " | " + strings.Join(reqLog, ",")
 }
 
-var concSuiteAlgs = map[byte][3]byte{3: {1, 1, 1}, 17: {3, 4, 1}, 8: {2, 2, 1}}
+var concSuiteAlgs = map[byte][3]byte{1: {1, 0, 0}, 2: {1, 1, 0}, 3: {1, 1, 1}, 17: {3, 4, 1}, 8: {2, 2, 1}}
 
 // concSolo runs one workload in a fresh process (`harness concsolo <seed>`) and returns what it printed
 func concSolo(seed int64) string {
@@ -228,8 +237,8 @@ func execConc(a []string) (string, string) {
 }
 
 func genConc(g *genCtx) {
-	ns := []int{2, 4, 8}
-	seeds := 3
+	ns := []int{2, 4, 8, 16}
+	seeds := 8
 	if g.thorough() {
 		ns = []int{2, 3, 4, 6, 8, 12, 16}
 		seeds = 50
